@@ -1263,7 +1263,13 @@ func (p *balloons) Reconfigure(newCfg interface{}) error {
 		return err
 	}
 	log.Info("config updated successfully")
-	if err := p.Sync(p.cch.GetContainers(), p.cch.GetContainers()); err != nil {
+	allocate := []cache.Container{}
+	for _, c := range p.cch.GetContainers() {
+		if state := c.GetState(); state == cache.ContainerStateCreated || state == cache.ContainerStateRunning {
+			allocate = append(allocate, c)
+		}
+	}
+	if err := p.Sync(allocate, p.cch.GetContainers()); err != nil {
 		log.Warnf("failed to sync containers: %v", err)
 	}
 	return nil
